@@ -167,3 +167,32 @@ def witness_F20():
     r = perform_kramers_kronig_test(DataSet(f, Z), test="cnls", num_RC=10, add_capacitance=False, add_inductance=True, admittance=True, log_F_ext=-0.2,
                                     num_F_ext_evaluations=0, num_procs=1, max_nfev=2000)
     return bool(np.max(np.abs(r.residuals)) > 1e-3)
+
+
+# ---- F31 (C11): a Whittaker-Henderson smoother of order 1 penalises first differences, so it flattens linear data
+def whithend_order_one_linear(entry):
+    i = entry.get("input")
+    return (isinstance(i, dict) and entry.get("what") == "smoother-changes-linear" and i.get("smoothing") == "whithend" and i.get("polynomial_order") == 1)
+
+
+def witness_F31():
+    import numpy as np
+    from pyimpspec.analysis.zhit.smoothing import _smooth_phase
+    ph = 0.1 - 0.05 * np.arange(50)
+    out = _smooth_phase("whithend", 5, 1, 3, np.linspace(12, -3, 50), ph.copy())
+    return bool(np.max(np.abs(out - ph)) > 1e-6)
+
+
+# ---- F32 (C11): Savitzky-Golay with an even num_points is evaluated half a sample off-centre
+def savgol_even_window_linear(entry):
+    i = entry.get("input")
+    return (isinstance(i, dict) and entry.get("what") == "smoother-changes-linear" and i.get("smoothing") == "savgol" and isinstance(i.get("num_points"), int)
+            and i.get("num_points") % 2 == 0)
+
+
+def witness_F32():
+    import numpy as np
+    from pyimpspec.analysis.zhit.smoothing import _smooth_phase
+    ph = 0.1 - 0.05 * np.arange(50)
+    out = _smooth_phase("savgol", 4, 2, 3, np.linspace(12, -3, 50), ph.copy())
+    return bool(abs(np.max(np.abs(out - ph)) - 0.025) < 1e-6)
